@@ -1,4 +1,5 @@
 import AmaranthVerif.Proofs.MemoryCtor
+import AmaranthVerif.Proofs.MemoryRename
 
 /-!
 # C11 — memories behave as arrays of rows under any port configuration
@@ -16,7 +17,8 @@ Theorems of this file: `ctor_covers`, `ctor_wf`, `ctor_transparency`, `inv_init`
 `async_read_beyond_depth`, `sync_read_old_data`,
 `transparent_read`, `read_beyond_depth`, `read_hold_when_disabled`, `old_reset_clears_read_port`,
 `old_differs_only_under_reset`, `row_access_same_storage`, `row_access_out_of_range`, `model_refines_rows`,
-`values_in_shape`, `observed_values_are_rows`, `model_refines_rows_values`, `model_refines_rows_run`.
+`values_in_shape`, `observed_values_are_rows`, `model_refines_rows_values`, `model_refines_rows_run`,
+`rename_moves_ports`, `rename_keeps_wf`.
 (`exCfg_ctor`, `exWF`, `exInv`, `exInputsOk`, `exOneDomain`, `exNoCollision`, `exReadsInRange`, `exRunOk` are the
 non-vacuity instances on the example configuration, not property theorems.)
 
@@ -56,6 +58,13 @@ reset pulses. `stepOld` is the simulator as found (finding F22), refuted against
 
 Testbench row access. `mem[i]` exists for `0 ≤ i < depth` only (`MemoryData.__getitem__` raises `IndexError`
 otherwise — also for negative `i`); `tbGet` / `tbSet` include that lookup.
+
+`DomainRenamer` around a memory (`Model/MemoryRename.lean`, `Spec/MemoryRename.lean`). `Cfg.rename c m` is what
+`map_memory_ports` leaves: one lookup of every port's domain in the map. `rename_moves_ports`: every port sits in the
+target the map names *for its declared domain* — all entries acting at once, so swaps, chains listed source-first and
+rotations move every port exactly once — and nothing else of the memory changes; `rename_keeps_wf`: the renamed memory
+is again a configuration all theorems of this file speak about. The check's walks wrap memories in renamers with such
+maps and evaluate `Mem.step` / `MemRows.step` on `Cfg.rename` of the declared configuration.
 
 The clause "the simulator and the emitted RTLIL agree wherever the RTLIL is defined" is decided by C04's check.
 -/
@@ -576,5 +585,30 @@ example : (run exCfg (init exCfg) exRun).rows = [7, 9, 12] ∧ (run exCfg (init 
 -- and a collision is really excluded: both ports writing bit 0 of row 1 fails the check
 example : noCollisionB exCfg (init exCfg).clk ⟨[⟨1, 10, 3⟩, ⟨1, 15, 1⟩], [⟨1, false⟩, ⟨1, true⟩, ⟨1, false⟩]⟩ exEv = false := by
   decide +kernel
+
+/-! ## A memory under `DomainRenamer` -/
+
+/-- **rename_moves_ports.** Under `DomainRenamer(m)` — any map: one entry, several, a swap, a chain, a rotation — every
+write port and every synchronous read port of the memory is a port of the domain the map names for the domain it was
+declared in (`MemRows.target m d`: the entry whose source is `d`, all entries read at once; `d` itself if no entry
+names it), asynchronous ports stay asynchronous, and row shape, depth, initial rows, granularities, enable widths and
+transparency lists are unchanged. -/
+theorem rename_moves_ports (c : Cfg) (m : List (Nat × Nat)) : MemRows.Renamed m c (c.rename m) :=
+  rename_renamed c m
+
+/-- the renamed memory is a well-formed configuration again (transparency lists still name write ports of the read
+port's own domain): every theorem above applies to it -/
+theorem rename_keeps_wf (c : Cfg) (m : List (Nat × Nat)) (h : WF c) : WF (c.rename m) :=
+  rename_wf c m h
+
+-- non-vacuity: the example memory (write port in domain 0 …) under a swap, a chain listed source-first, a rotation
+example : ((exCfg.rename [(0, 1), (1, 0)]).wrs.map (·.dom), (exCfg.rename [(0, 1), (1, 0)]).rds.map (·.dom)) =
+    (exCfg.wrs.map (fun w => MemRows.target [(0, 1), (1, 0)] w.dom),
+     exCfg.rds.map (fun r => r.dom.map (MemRows.target [(0, 1), (1, 0)]))) := by decide
+example : [0, 1, 2].map (MemRows.target [(0, 1), (1, 0)]) = [1, 0, 2] := by decide
+example : [0, 1, 2].map (MemRows.target [(0, 1), (1, 2)]) = [1, 2, 2] := by decide
+example : [0, 1, 2].map (MemRows.target [(0, 1), (1, 2), (2, 0)]) = [1, 2, 0] := by decide
+example : [0, 1, 2].map (renameDom [(0, 1), (1, 2), (2, 0)]) = [1, 2, 0] := by decide
+example : WF (exCfg.rename [(0, 1), (1, 0)]) := rename_keeps_wf _ _ exWF
 
 end Amaranth.C11
